@@ -1,8 +1,9 @@
 #!/usr/bin/env python3
 """Self-test of the lock scenario generator: a payload cell that some thread writes is only accessed by a thread that holds
 an S / SIX / X grant on that lock at that program position (TryLock* results are over-approximated as owning; composite
-and optimistic guards do not count: reads under them are optimistic and may legitimately be torn).  A generator that
-violates this makes the torn-read monitor raise false alarms.  usage: selftest_gen.py [seeds]"""
+and optimistic guards do not count: reads under them are optimistic and may legitimately be torn), and no guard is
+move-constructed from itself (not a legal use; self move-assignment is).  A generator that violates this makes the
+monitors raise false alarms.  usage: selftest_gen.py [seeds]"""
 import re, sys, os
 sys.path.insert(0, os.path.dirname(os.path.abspath(__file__)))
 import gen_lock
@@ -15,6 +16,9 @@ def main():
             for sc in gen_lock.make_scenarios(comp, seed, 60, 'a'):
                 kinds = re.search(r'kinds=(\S+)', sc).group(1).split(',')
                 written = {int(m.group(1)) for m in re.finditer(r'paywr (\d+) ', sc)}
+                if re.search(r'mctor (\d+) \1\b', sc):
+                    bad += 1
+                    print('SELF MOVE-CONSTRUCTION', comp, seed, sc.split()[1])
                 for l in sc.split('\n'):
                     if not l.startswith('T '):
                         continue
